@@ -74,6 +74,11 @@ def processSys (w : Wiring) (header : String) (lines : List String) (showWitness
       | _ => out) out
     if showWitness then out ++ "\n  witness: " ++ " ; ".intercalate (wit.map reprS) else out
   | .rejected k l f =>
-    out ++ s!"actor=0 accept=rejected@{k}:{(l.map reprS).getD "end"}:frontier={f} "
+    -- the model cannot explain the trace; the broadcast monitors only look at observable events: ask them anyway
+    let out := out ++ s!"actor=0 accept=rejected@{k}:{(l.map reprS).getD "end"}:frontier={f} "
+    match monC16.firstFail monC16.init 0 c.slabels, monC16q.firstFail monC16q.init 0 c.slabels with
+    | some k, _ => out ++ s!"monitor[C16]=violation@{k}:{reprS (c.slabels.getD k (.bcast 0 0 0))} "
+    | none, some k => out ++ s!"monitor[C16]=violation@{k}:{reprS (c.slabels.getD k (.bcast 0 0 0))} "
+    | none, none => out
 
 end Hannibal.Driver
